@@ -51,6 +51,18 @@ type callRes struct {
 	Panic string
 	Tree  *cdesc.Tree
 	Out   string
+	Root  j5schema.RootSchema // the object Schema returned (identity is compared within a case)
+}
+
+// class of a completed call: 0 returned normally, 1 returned an error (or a nil schema), 2 panicked
+func (r callRes) class() int {
+	switch {
+	case r.Panic != "":
+		return 2
+	case r.Err != "" || r.Nil:
+		return 1
+	}
+	return 0
 }
 
 func (r callRes) failed() bool { return r.Err != "" || r.Panic != "" || r.Nil }
@@ -69,12 +81,14 @@ func (r callRes) String() string {
 	return "ok " + r.Out
 }
 
+// sameRes: what the caller observes is the same — the class, the error text / panic value,
+// the schema's unfolding, the encode output bytes, the decoded message
 func sameRes(a, b callRes) bool {
 	if a.failed() != b.failed() {
 		return false
 	}
 	if a.failed() {
-		return (a.Panic != "") == (b.Panic != "") && a.Nil == b.Nil
+		return a.Panic == b.Panic && a.Nil == b.Nil && a.Err == b.Err
 	}
 	if (a.Tree == nil) != (b.Tree == nil) {
 		return false
@@ -131,7 +145,7 @@ func (e *caseEnv) doCall(sh *sharedObj, c call) (res callRes) {
 			// the typed nil pointer of a failed build, handed out without an error: not a usable schema
 			return callRes{Nil: true}
 		}
-		return callRes{Tree: e.b.UnfoldRoot(e.k, root)}
+		return callRes{Tree: e.b.UnfoldRoot(e.k, root), Root: root}
 	case kEncode:
 		out, err := sh.codec.ProtoToJSON(e.b.Populate(c.Node, 2))
 		if err != nil {
@@ -458,6 +472,17 @@ func runC10(cfg *vh.Config) error {
 				Input: input, Got: fmt.Sprintf("trace %v", run.Trace)})
 		}
 		var obs []string
+		// identity of the schemas handed out: index of first appearance over (thread, call)
+		ptrID := map[j5schema.RootSchema]int{}
+		for t := range cs.Calls {
+			for _, got := range run.Res[t] {
+				if got.Root != nil {
+					if _, ok := ptrID[got.Root]; !ok {
+						ptrID[got.Root] = len(ptrID) + 1
+					}
+				}
+			}
+		}
 		for t, th := range cs.Calls {
 			var os []string
 			for k, c := range th {
@@ -474,24 +499,29 @@ func runC10(cfg *vh.Config) error {
 						sig = "C10 forced schedule: Schema fails (unlinked placeholder of a build in progress is visible) for a type that reflects alone"
 					case c.Kind == kSchema && got.Tree != nil && !got.Tree.Linked():
 						sig = "C10 forced schedule: Schema returns a schema with an unlinked nested reference (To == nil)"
-					case got.Panic != "":
-						sig = "C10 forced schedule: " + kindName[c.Kind] + " panics, succeeds alone"
+					case got.Panic != "" && want.Panic == "":
+						sig = "C10 forced schedule: " + kindName[c.Kind] + " panics, unlike the call run alone"
 					case got.Err != "" && !want.failed():
 						sig = "C10 forced schedule: " + kindName[c.Kind] + " fails, succeeds alone"
+					case got.failed() && want.failed():
+						sig = "C10 forced schedule: " + kindName[c.Kind] + " fails with a different error than the call run alone"
+					case !got.failed() && !want.failed() && got.Tree == nil:
+						sig = "C10 forced schedule: " + kindName[c.Kind] + " output differs from the output of the call run alone"
 					}
 					res.Fail(vh.Failure{Case: caseNo, Stream: "forced", Sig: sig, Clause: "each call returns the same result it returns when run alone",
 						Input: input, Got: fmt.Sprintf("thread %d call %d (%s of type %d): %s", t, k, kindName[c.Kind], c.Node, got), Want: want.String()})
 				}
+				res.Count("call:" + kindName[c.Kind])
 				if c.Kind == kSchema {
 					if got.Nil {
-						os = append(os, "ORes RNil")
+						os = append(os, "ORes RNil 0")
 					} else if got.failed() {
-						os = append(os, "ORes RErr")
+						os = append(os, "ORes RErr 0")
 					} else {
-						os = append(os, "ORes (ROk ("+got.Tree.Coq()+"))")
+						os = append(os, fmt.Sprintf("ORes (ROk (%s)) %d", got.Tree.Coq(), ptrID[got.Root]))
 					}
 				} else {
-					os = append(os, "OSame "+vh.BoolTerm(same))
+					os = append(os, fmt.Sprintf("OCall %d %d %s", got.class(), want.class(), vh.BoolTerm(same)))
 				}
 			}
 			obs = append(obs, "["+strings.Join(os, ";")+"]")
